@@ -1405,6 +1405,9 @@ func main() {
 	if f.In != "" {
 		seen := map[string]bool{}
 		for _, in := range hx.ReadInputs(f.In) {
+			if runGuardInput(o, in) {
+				continue // kinds guard, guarddel, epoch, epochraw (guard.go)
+			}
 			if seen[string(in.Desc)] {
 				continue // "hist" and "list" cases share one input
 			}
@@ -1418,6 +1421,7 @@ func main() {
 		return
 	}
 	designed(o)
+	designedGuards(o)
 	r := hx.NewRand(f.Seed)
 	for i := 0; i < f.N; i++ {
 		g := &gen{r: r.Split()}
@@ -1430,4 +1434,5 @@ func main() {
 			runHist10(o, Desc10{Ops: g.history(5+g.r.Intn(9), i%4 == 1)}, "gen")
 		}
 	}
+	generatedGuards(o, hx.NewRand(f.Seed^0x10c10), f.N, f.Tier)
 }
